@@ -70,6 +70,7 @@ func mapRangeOrderFree(c *core.Ctx, info *types.Info, d *ast.FuncDecl, rs *ast.R
 	collected := map[types.Object]bool{} // slices appended to
 	var reasons []string
 	bad := ""
+	sawBreak := false
 	loopVars := map[types.Object]bool{}
 	for _, e := range []ast.Expr{rs.Key, rs.Value} {
 		if id, ok := e.(*ast.Ident); ok && id.Name != "_" {
@@ -263,7 +264,7 @@ func mapRangeOrderFree(c *core.Ctx, info *types.Info, d *ast.FuncDecl, rs *ast.R
 		case *ast.DeclStmt:
 		case *ast.BranchStmt:
 			if st.Tok == token.BREAK {
-				bad = "breaks out of the loop at the first matching entry"
+				sawBreak = true // judged below: an existential search (`found = true; break`) does not depend on the order
 			}
 		case *ast.ReturnStmt:
 			for _, r := range st.Results {
@@ -295,6 +296,16 @@ func mapRangeOrderFree(c *core.Ctx, info *types.Info, d *ast.FuncDecl, rs *ast.R
 		}
 	}
 	checkStmt(rs.Body)
+	if bad == "" && sawBreak {
+		for _, r := range reasons {
+			if r != "sets an outer variable to a constant" && r != "returns a loop-independent value" {
+				bad = "breaks out of the loop at the first matching entry"
+			}
+		}
+		if bad == "" {
+			reasons = append(reasons, "leaves at the first match after setting constants only: which entry matches first does not matter")
+		}
+	}
 	if bad != "" {
 		return bad, false
 	}
